@@ -13,6 +13,9 @@ import (
 	"strings"
 )
 
+// ghostFieldReg: "pkg.Type.field" -> declared ghost field
+var ghostFieldReg = map[string]bool{}
+
 type Clause struct {
 	Kind string // requires ensures invariant decreases modifies assert panics_if ghost assume_stdlib
 	Src  string
@@ -82,6 +85,9 @@ type FuncContract struct {
 	Props     []string
 	Wraps     bool // signed arithmetic wraps silently (no overflow obligations)
 	NoTerm    bool
+	Rely      []*Clause // rely-guarantee mode: two-state relations every step of the environment (other goroutines) satisfies
+	Guarantee []*Clause // two-state relations every atomic step of this function satisfies (must imply the others' rely)
+	SharedInv []*Clause // one-state invariants of the shared state, holding between atomic steps
 	PartialWhen *SNode // partial when <cond over the entry state>: unsupported statements may be reached exactly under cond
 	Partial   bool // statements outside the supported subset must be unreachable (obligation) instead of failing the function
 	NoAlloc   bool // the function allocates nothing (checked at every exit; callers keep their allocation counter)
@@ -110,6 +116,7 @@ type TypeSpec struct {
 }
 
 type PkgContracts struct {
+	GhostFields map[string]map[string]bool // type name -> ghost field names (integer-valued ghost state per object)
 	Pkg     string
 	Funcs   map[string]*FuncContract
 	Specs   map[string]*SpecFunc
@@ -124,7 +131,7 @@ var clauseKeywords = map[string]bool{
 	"decreases": true, "loop": true, "invariant": true, "at": true, "assert": true, "ghost": true,
 	"mode": true, "trusted": true, "inline": true, "pure": true, "axiom": true, "global": true,
 	"type": true, "lemma": true, "props": true, "wraps": true, "unroll": true, "uses": true,
-	"guarded_by": true, "noterm": true, "noalloc": true, "partial": true, "nomerge": true, "traced": true, "bind": true, "ghostparam": true, "recspec": true, "opaque": true, "assume": true, "havoc": true,
+	"guarded_by": true, "noterm": true, "noalloc": true, "rely": true, "guarantee": true, "sharedinv": true, "ghostfield": true, "partial": true, "nomerge": true, "traced": true, "bind": true, "ghostparam": true, "recspec": true, "opaque": true, "assume": true, "havoc": true,
 	"split": true, "stdlib": true, "defspec": true, "ih": true, "apply": true,
 }
 
@@ -410,6 +417,41 @@ func parseContractFile(path string, pkg string, pc *PkgContracts) error {
 				return bad("apply needs lemma(args)")
 			}
 			curAnchor.Clauses = append(curAnchor.Clauses, &Clause{Kind: "apply", Src: rest, Expr: e, Line: rl.line, File: path, Tag: tag})
+		case "ghostfield":
+			// ghostfield Type.name : an integer-valued ghost field of every object of the struct type
+			f := strings.Split(strings.Fields(rest)[0], ".")
+			if len(f) != 2 {
+				return bad("ghostfield Type.name")
+			}
+			if pc.GhostFields == nil {
+				pc.GhostFields = map[string]map[string]bool{}
+			}
+			if pc.GhostFields[f[0]] == nil {
+				pc.GhostFields[f[0]] = map[string]bool{}
+			}
+			pc.GhostFields[f[0]][f[1]] = true
+			ghostFieldReg[pkg+"."+f[0]+"."+f[1]] = true
+			if fs := strings.Fields(rest); len(fs) > 1 && fs[1] == "ref" {
+				// a ghost field holding a reference: every stored value is nil or an allocated reference
+				heapHoldsRefs["P!"+pkg+"."+f[0]+"!.$"+f[1]] = true
+			}
+		case "rely", "guarantee", "sharedinv":
+			if cur == nil {
+				return bad("%s outside func", kw)
+			}
+			e, err := parseSpec(rest)
+			if err != nil {
+				return bad("%v", err)
+			}
+			c := &Clause{Kind: kw, Src: rest, Expr: e, Line: rl.line, File: path, Tag: tag}
+			switch kw {
+			case "rely":
+				cur.Rely = append(cur.Rely, c)
+			case "guarantee":
+				cur.Guarantee = append(cur.Guarantee, c)
+			default:
+				cur.SharedInv = append(cur.SharedInv, c)
+			}
 		case "requires", "ensures", "panics_if", "invariant", "decreases", "assert", "assume":
 			c, err := mk(kw, rest, rl.line)
 			if err != nil {
@@ -522,6 +564,14 @@ func parseContractFile(path string, pkg string, pc *PkgContracts) error {
 					return bad("ghost name = expr")
 				}
 				c.Name = strings.TrimSpace(rest[:k])
+				if strings.Contains(c.Name, ".") {
+					// ghost x.f = e : assignment to a ghost field
+					lhs, err := parseSpec(c.Name)
+					if err != nil || lhs.Op != "sel" {
+						return bad("ghost field assignment needs obj.field = expr")
+					}
+					c.List = []*SNode{lhs}
+				}
 				e, err := parseSpec(strings.TrimSpace(rest[k+1:]))
 				if err != nil {
 					return bad("%v", err)
